@@ -2,6 +2,7 @@
 from __future__ import annotations
 
 import os
+import re
 
 import numpy as np
 import onnx
@@ -29,7 +30,7 @@ ASSUMPTIONS = ["onnxruntime 1.30 CPU kernels (incl. com.microsoft contrib ops) e
                "vf/fusionhosts.py emits valid ONNX (hosts that neither runtime executes are skipped and counted)"]
 FLOOR = {"quick": 400, "thorough": 4000}
 TIMEOUT = {"quick": 1200, "thorough": 4 * 3600}
-EXCLUDE: set = set()
+EXCLUDE: set = set(x for x in os.environ.get("VERIF_C19_EXCLUDE", "").split(",") if x)  # development only: named regions (see REGIONS)
 
 # fusions that must fire at least this often per run, else the run is a harness error (generator rotted)
 MIN_FIRED = {"quick": 10, "thorough": 100}
@@ -111,6 +112,52 @@ def fused_ops_added(before, after):
 _UNAVAILABLE = ("NOT_IMPLEMENTED", "Could not find an implementation", "Kernel not found", "Failed to find kernel")
 
 
+def _ort_error_key(msg):
+    """Root-cause key of an ORT load/run failure: (operator, normalised status message)."""
+    m = re.search(r"running (\w+) node", msg) or re.search(r"operator \((\w+)\)", msg) or re.search(r"Op \((\w+)\)", msg)
+    opname = m.group(1) if m else "?"
+    m = re.search(r"Status Message: (.*)", msg)
+    text = m.group(1) if m else msg.split(":", 3)[-1]
+    text = re.sub(r"[^A-Za-z ]+", " ", text)
+    return f"{opname}:{'_'.join(text.split()[:8])}"
+
+
+def _groupnorm_ref_ops():
+    from onnx.reference.op_run import OpRun
+
+    class GroupNorm(OpRun):
+        op_domain = "com.microsoft"
+
+        def _run(self, x, gamma, beta, activation=0, channels_last=1, epsilon=1e-5, groups=1):  # noqa: ARG002
+            xf = x.astype(np.float32)
+            if not channels_last:
+                xf = np.moveaxis(xf, 1, -1)
+            n, c = xf.shape[0], xf.shape[-1]
+            sp = xf.shape[1:-1]
+            g = xf.reshape(n, -1, groups, c // groups)
+            mean = g.mean(axis=(1, 3), keepdims=True)
+            var = g.var(axis=(1, 3), keepdims=True)
+            y = ((g - mean) / np.sqrt(var + epsilon)).reshape(n, *sp, c)
+            y = y * gamma.astype(np.float32) + beta.astype(np.float32)
+            if activation:
+                y = y / (1.0 + np.exp(-y))
+            if not channels_last:
+                y = np.moveaxis(y, -1, 1)
+            return (y.astype(x.dtype),)
+
+    return [GroupNorm]
+
+
+def _run_fused_by_reference(new, feeds):
+    from onnx.reference import ReferenceEvaluator
+
+    try:
+        ev = ReferenceEvaluator(new, new_ops=_groupnorm_ref_ops())
+        return ("ok", [np.asarray(o) for o in ev.run(None, feeds)])
+    except Exception as e:  # noqa: BLE001
+        return ("err", f"{type(e).__name__}: {str(e)[:300]}")
+
+
 def tolerances(outputs):
     """(rel, abs) per the property: by dtype, absolute part scaled by the output magnitude."""
     f16 = any(np.asarray(o).dtype == np.float16 for o in outputs)
@@ -157,32 +204,41 @@ def check(model, unit, chain, feeds_list):
     r = apply_unit(model, unit, chain)
     if r[0] == "raise":
         info["verdict"] = "raise"
-        verdicts.append((f"raise:{unit if unit == 'optimize_for_ort' else r[3]}:{r[2]}", f"stage {r[3]}: {r[1]}"))
+        verdicts.append((f"raise:{r[2]}", f"stage {r[3]}: {r[1]}"))
         return verdicts, info
     _, new, counts = r
     info["counts"] = counts
     info["fired"] = fused_ops_added(model, new)
     info["changed"] = optcommon.folded_or_rewritten(model, new)
-    fired_names = "+".join(sorted(k for k, v in counts.items() if v)) or "none"
+    ob, oa = optcommon.op_multiset(model), optcommon.op_multiset(new)
+    if ob[("", "Softmax")] and oa[("", "Cast")] < ob[("", "Cast")] and not any(d for d, _ in oa):
+        counts.setdefault("softmax", 1)  # the upcast-removal rule leaves no new operator behind: detect it by the vanished Casts
+    info["fired_any"] = bool(info["fired"]) or any(counts.values())
+    fired_names = "+".join(sorted(k for k, v in counts.items() if v)) or "+".join(info["fired"]) or "none"
     # 3. result on ORT
+    sess, by_ref = None, False
     try:
         sess = execs.ort_session(new)
     except Exception as e:  # noqa: BLE001
         msg = f"{type(e).__name__}: {str(e)[:400]}"
         if any(u in msg for u in _UNAVAILABLE):
-            info["verdict"] = "skip:fused_kernel_unavailable_on_cpu"
-            return verdicts, info
-        info["verdict"] = "not_loadable"
-        verdicts.append((f"not_loadable:{fired_names}", msg))
-        return verdicts, info
-    for feeds, exp in zip(feeds_list, expected):
-        c = execs.run_ort(None, feeds, sess)
-        if c[0] != "ok":
-            if any(u in c[1] for u in _UNAVAILABLE):
+            if "GroupNorm" not in msg:
                 info["verdict"] = "skip:fused_kernel_unavailable_on_cpu"
                 return verdicts, info
+            by_ref = True
+        else:
+            info["verdict"] = "not_loadable"
+            verdicts.append((f"not_loadable:{_ort_error_key(msg)}", f"fusions {fired_names}: {msg}"))
+            return verdicts, info
+    for feeds, exp in zip(feeds_list, expected):
+        c = _run_fused_by_reference(new, feeds) if by_ref else execs.run_ort(None, feeds, sess)
+        if c[0] != "ok":
+            if by_ref or any(u in c[1] for u in _UNAVAILABLE):
+                info["verdict"] = "skip:fused_kernel_unavailable_on_cpu"
+                info["source_error"] = c[1]
+                return verdicts, info
             info["verdict"] = "run_fails"
-            verdicts.append((f"run_fails:{fired_names}", c[1]))
+            verdicts.append((f"run_fails:{_ort_error_key(c[1])}", f"fusions {fired_names}: {c[1]}"))
             return verdicts, info
         rel, abs_ = tolerances(exp)
         d = compare.same_outputs(exp, c[1], rel=rel, abs_=abs_)
@@ -191,7 +247,7 @@ def check(model, unit, chain, feeds_list):
             what = "shape" if "shape " in d else ("dtype" if "dtype " in d else ("count" if "output count" in d else "values"))
             verdicts.append((f"{what}:{fired_names}", d + " | input " + str(compare._feeds_repr(feeds))[:300]))
             return verdicts, info
-    info["verdict"] = "equal" if info["changed"] else "unchanged"
+    info["verdict"] = ("equal_by_reference" if by_ref else "equal") if info["changed"] else "unchanged"
     return verdicts, info
 
 
@@ -244,7 +300,7 @@ def run_shard(spec):
             if len(col.extra.setdefault("skip_samples", [])) < 3:
                 col.extra["skip_samples"].append(f"{host.family}/{host.near_miss}: {info.get('source_error', '')[:200]}")
             return
-        fired = bool(info["fired"])
+        fired = bool(info.get("fired_any"))
         for k, c in info["counts"].items():
             if c:
                 fired_total[k] = fired_total.get(k, 0) + 1
